@@ -86,6 +86,10 @@ impl Visitor<StatementPos> for InstructionGenerator {
                 );
             }
             Statement::Exit(_) => {
+                // leave the register frames of the enclosing FOR loops behind
+                for _ in 0..self.for_depth {
+                    self.push(Instruction::PopRegisters, pos);
+                }
                 self.push(Instruction::PopRet, pos);
             }
             Statement::Comment(_) => {}
